@@ -125,7 +125,7 @@ Proof.
   step noop. try (step noop).
   dif.
   - destruct body.
-    + apply pair_sim; [apply (sm_last SM)|assumption].
+    + reflexivity.
     + apply ev_seq_sim; assumption.
   - apply IH; assumption.
 Qed.
@@ -170,7 +170,7 @@ Ltac rw_assign := idtac; match goal with G : good (assign m1 _ _ _ _) |- _ => re
 Lemma ev_setq_sim : forall ps st sc last, good (ev_setq m1 ev1 st sc ps last) -> ev_setq m2 ev2 st sc ps last = ev_setq m1 ev1 st sc ps last.
 Proof.
   induction ps as [|[x e] ps IH]; intros st sc last H; simpl in *; [reflexivity|].
-  step noop. try (step noop). step rw_assign. step noop. apply IH; assumption.
+  step noop. try (step noop). step rw_assign. apply IH; assumption.
 Qed.
 
 Lemma apply_fn_sim : forall st c args, good (apply_fn m1 ev1 st c args) -> apply_fn m2 ev2 st c args = apply_fn m1 ev1 st c args.
